@@ -6,6 +6,7 @@ package gen
 import (
 	"fmt"
 	"math"
+	"regexp"
 	"strings"
 
 	"pgregory.net/rapid"
@@ -196,12 +197,34 @@ func (s *Style) OSP() string {
 	return rapid.SampledFrom([]string{"", "", " ", "  ", "\n", "\t"}).Draw(s.t, "osp")
 }
 
-// ID renders an identifier, optionally as a delimited identifier.
+// ID renders an identifier, optionally as a delimited identifier. Names that
+// are keywords or are not plain identifiers can only be written delimited.
 func (s *Style) ID(name string) string {
+	if !PlainIdent(name) {
+		return `"` + name + `"`
+	}
 	if s.t != nil && rapid.IntRange(0, 7).Draw(s.t, "quoteid") == 0 {
 		return `"` + name + `"`
 	}
 	return name
+}
+
+var plainIdentRe = regexp.MustCompile(`^[A-Za-z_][A-Za-z0-9_]*$`)
+
+// PlainIdent says whether name can be written without double quotes.
+func PlainIdent(name string) bool {
+	return plainIdentRe.MatchString(name) && !Keywords[strings.ToUpper(name)]
+}
+
+// exotic names: only expressible as delimited identifiers
+var exoticNames = []string{"select", "From", "ORDER", "my col", "a-b", "x.y", "t 0", ";semi", "(p)", "1st", "été", "and", "count", " lead", "a,b"}
+
+// IdentX is Ident with, now and then, a name that needs double quotes.
+func IdentX(t *rapid.T, label string, pool []string) string {
+	if rapid.IntRange(0, 11).Draw(t, label+"_exotic") == 0 {
+		return rapid.SampledFrom(exoticNames).Draw(t, label+"_x")
+	}
+	return Ident(t, label, pool)
 }
 
 func (s *Style) Bool(b bool) string {
